@@ -65,11 +65,12 @@ func Scenarios() []*Scn {
 		{Name: "S27-2streams-pool-reuse", Pool: std, Capacity: 2, Sources: [][]Ev{{x, y, y2, x2, evs("x", `{"stream":"x","k":5}`), evs("y", `{"stream":"y","k":6}`)}}, Workers: 2, Props: "C01 C02"},
 		{Name: "S31-2streams-pool-reuse-lowmem", Pool: low, Capacity: 2, Sources: [][]Ev{{x, y, y2, x2, evs("x", `{"stream":"x","k":5}`)}}, Workers: 2, Props: "C01 C02"},
 		// a join that is applied only to matching events: a non-matching event arrives while the join holds one
-		{Name: "S28-join-with-match-fields", Pool: std, Capacity: 4, Sources: [][]Ev{{ev(`{"t":"j","m":"S1"}`), ev(`{"m":"x2"}`), ev(`{"t":"j","m":"x3"}`)}}, Actions: []string{"joinmatch"}, Props: "C01 C02 C04"},
+		{Name: "S28-join-with-match-fields", Pool: std, Capacity: 4, Sources: [][]Ev{{ev(`{"t":"j","m":"S1"}`), ev(`{"m":"x2"}`), ev(`{"t":"j","m":"x3"}`)}}, Actions: []string{"joinmatch"}, Props: "C01 C02 C04 C15"},
 		// a stream that already had a time-out (its length counter has seen a timeout event), then events arriving back to back
 		// while it is detaching, and a late put racing the heartbeat after a second hold
-		{Name: "S29-timeout-then-burst", Pool: std, Capacity: 4, Sources: [][]Ev{{S, Ev{JSON: `{"m":"x2"}`, Delay: 700 * time.Millisecond}, ev(`{"m":"x3"}`)}}, Actions: []string{"join"}, Props: "C04 C05 C02"},
-		{Name: "S30-timeout-hold-late-put", Pool: low, Capacity: 4, Sources: [][]Ev{{S, Ev{JSON: `{"m":"S2"}`, Delay: 600 * time.Millisecond}, Ev{JSON: `{"m":"x3"}`, Delay: 600 * time.Millisecond}}}, Actions: []string{"join"}, Props: "C04 C05 C02"},
+		{Name: "S29-timeout-then-burst", Pool: std, Capacity: 4, Sources: [][]Ev{{S, Ev{JSON: `{"m":"x2"}`, Delay: 700 * time.Millisecond}, ev(`{"m":"x3"}`)}}, Actions: []string{"join"}, Props: "C04 C05 C02 C15"},
+		{Name: "S30-timeout-hold-late-put", Pool: low, Capacity: 4, Sources: [][]Ev{{S, Ev{JSON: `{"m":"S2"}`, Delay: 600 * time.Millisecond}, Ev{JSON: `{"m":"x3"}`, Delay: 600 * time.Millisecond}}}, Actions: []string{"join"}, Props: "C04 C05 C02 C15"},
+		{Name: "S32-timeout-then-late-continuation", Pool: std, Capacity: 4, Sources: [][]Ev{{S, Ev{JSON: `{"m":"S2"}`, Delay: 600 * time.Millisecond}, Ev{JSON: `{"m":"C3"}`, Delay: 600 * time.Millisecond}, ev(`{"m":"x4"}`)}}, Actions: []string{"join"}, Props: "C15 C04"},
 		{Name: "S18-cap1-join-hold", Pool: low, Capacity: 1, Sources: [][]Ev{{S, Oth}}, Actions: []string{"join"}, Props: "C04 C05"},
 		{Name: "S19-1proc-2streams", Pool: std, Capacity: 2, SingleProc: true, Sources: [][]Ev{{x, y, x2}}, Props: "C02 C04"},
 		{Name: "S20-exits-of-In", Pool: std, Capacity: 2, MaxEventSize: 40, Sources: [][]Ev{{
